@@ -5,7 +5,7 @@ Statements are about the executable model of `_Connector` in `Model.lean` (tied 
 the correspondence check) and quantify over every address list, every synchronous-failure pattern and every
 sequence of events (batches of connect completions, timer firings).
 -/
-import TornadoModel.C10.Live
+import TornadoModel.C10.Check
 namespace TornadoModel.C10
 
 /-- once the connector's future has been completed no event changes it any more -/
@@ -387,5 +387,49 @@ theorem model_run_ok_refuted : ¬ model_run_ok_goal := by
   have := h [(0, 7, false)] false [.batch [.fail 0, .succ 0]] (by decide) (by decide)
   revert this
   decide
+
+/-- **model_run_ok_partial** — the whole observed-run checker (clauses 1–8: completed at most once; the FIRST delivered
+success wins; errors only after the connect timer or when every address has failed; losers closed; one attempt per
+family; liveness; one stream per list entry) accepts every run of the model, for address lists that may repeat
+addresses, on every schedule in which no batch reports a stream failed and later in the same batch succeeded
+(decidable side condition `wfEvents`; a connect future completes once) -/
+theorem model_run_ok_partial : ∀ (l : List (Nat × Nat × Bool)) (ct : Bool) (evs : List Event), l ≠ [] →
+    (∀ p ∈ l, p.1 ≤ 1) → wfEvents evs = true →
+    Spec.check (mkNamed l) evs
+      ((start (mkNamed l) ct :: trace (start (mkNamed l) ct) evs).map Spec.snapOf) = 0 := by
+  intro l ct evs hne _ hwf
+  have hne' : mkNamed l ≠ [] := by
+    intro h
+    have := mkNamed_length l
+    rw [h] at this
+    exact hne (List.eq_nil_of_length_eq_zero this.symm)
+  exact check_of hne' (mkNamed_nodup l) ct evs hwf
+
+/-- non-vacuity: a well-formed schedule with a two-completion batch, a late arrival and both timers; the refuting
+schedule of `model_run_ok_refuted` is exactly what `wfEvents` excludes -/
+example : wfEvents [.tick, .batch [.fail 0, .succ 1], .batch [.succ 2], .ctick] = true
+    ∧ wfEvents [.batch [.fail 0, .succ 0]] = false
+    ∧ (run (start (mkNamed [(0, 7, false), (1, 7, false), (0, 7, false)]) true)
+        [.tick, .batch [.fail 0, .succ 1], .batch [.succ 2], .ctick]).settles = [.ok 1 1] := by decide
+
+/-- **first_success_wins** (clause 2) — in every reachable pending state, a batch of completions (no stream failed and
+then succeeded within it) completes the future with the first success that names an in-flight stream, and with no
+result if there is none -/
+theorem first_success_wins (addrs : List Addr) (ct : Bool) (evs0 : List Event) (cs : List Compl)
+    (h0 : (run (start addrs ct) evs0).settles = []) (hwf : noFailThenSucc cs = true) :
+    Spec.clause2 (Spec.snapOf (run (start addrs ct) evs0)) (.batch cs)
+      (Spec.snapOf (step (run (start addrs ct) evs0) (.batch cs))) = true :=
+  clause2_batch (inv_run addrs ct evs0) (q1_run addrs ct evs0) h0 cs hwf
+
+/-- non-vacuity: a pending state and a batch whose first completion is a failure, the second the winning success -/
+example : (run (start (mkNamed [(0, 7, false), (1, 7, false)]) true) [.tick]).settles = []
+    ∧ noFailThenSucc [.fail 0, .succ 5, .succ 1, .succ 0] = false ∧ noFailThenSucc [.fail 0, .succ 5, .succ 1] = true
+    ∧ (step (run (start (mkNamed [(0, 7, false), (1, 7, false)]) true) [.tick])
+        (.batch [.fail 0, .succ 5, .succ 1])).settles = [.ok 1 1] := by decide
+
+/-- **one_stream_per_entry** (clause 7) — streams are opened only for entries of the list, at most one per entry -/
+theorem one_stream_per_entry (l : List (Nat × Nat × Bool)) (ct : Bool) (evs : List Event) :
+    Spec.clause7 (mkNamed l) (Spec.snapOf (run (start (mkNamed l) ct) evs)) = true :=
+  clause7_of (inv_run (mkNamed l) ct evs).core (mkNamed_nodup l)
 
 end TornadoModel.C10
